@@ -304,6 +304,35 @@ def run(ctx, report):
     files(ctx, report)
     footer_band(ctx, report)
     relative_list(ctx, report)
+    mixed_writers(ctx, report)
+
+
+def mixed_writers(ctx, report):
+    """a file of fastparquet's own followed by a file of another writer (level blocks laid out differently): the list reads as their
+    concatenation - shortcuts that are valid for fastparquet's own layout must not be applied to the foreign file"""
+    import fastparquet, random
+    from . import specwriter as sw
+    wd = os.path.join(ctx.workdir("c14"), "mixed")
+    shutil.rmtree(wd, ignore_errors=True)
+    os.makedirs(wd)
+    rec = {"check": "files", "mode": "mixed-writers", "shape": "flat", "files": 2}
+    ctx.crumb(rec)
+    try:
+        f1, f2 = os.path.join(wd, "a.parquet"), os.path.join(wd, "b.parquet")
+        fastparquet.write(f1, pd.DataFrame({"x": pd.array([1, 2, 3], dtype="Int64")}), has_nulls=True)
+        n = 20
+        col = sw.Column([b"x"], 2, 1, 0, [(1, 0, 100 + r) for r in range(n)])
+        sw.write_file(f2, [col], [(0, n)], {"cols": [{"codec": "UNCOMPRESSED", "v2": False, "def_runs": "bp", "page_bounds": [], "stats": True}]},
+                      random.Random(1))
+        want = [1, 2, 3] + list(range(100, 100 + n))
+        for order, files, exp in (("own-first", [f1, f2], want), ("foreign-first", [f2, f1], want[3:] + want[:3])):
+            got = [int(v) for v in fastparquet.ParquetFile(files).to_pandas()["x"].tolist()]
+            if got != exp:
+                report.violation({**rec, "order": order, "what": f"{order}: rows {got[:8]}.. read, the two files hold {exp[:8]}..", "sig": "mixed-writers:" + order})
+    except Exception as e:  # noqa
+        report.violation({**rec, "what": "opening a list of files of two writers raised " + canon_err(e) + " " + str(e)[:80], "sig": "mixed-writers:raised"})
+    report.case(("mixed-writers",), True)
+    shutil.rmtree(wd, ignore_errors=True)
 
 
 def relative_list(ctx, report):
